@@ -128,9 +128,8 @@ class Isa(object):
 
     # ---- decode the way CoreExec.read_instruction does ---------------------
     def decode(self, b, address=None, guard=10):
-        """returns instruction | None; exceptions propagate. Resets the pending
-        prefix state after an exception so that campaigns stay independent.
-        A wall-clock guard raises HarnessTimeout (a BaseException, so that it is
+        """returns instruction | None; exceptions propagate (the decoder state is
+        left as the code under test left it). A wall-clock guard raises HarnessTimeout (a BaseException, so that it is
         never mistaken for an outcome of the code under test)."""
         try:
             with time_guard(guard):
@@ -138,7 +137,8 @@ class Isa(object):
                     i = self.d(b, address=0, code=b)
                 else:
                     i = self.d(b)
-        except BaseException:
+        except HarnessTimeout:
+            # interrupted in the middle of a decode: the harness broke the state
             self.reset_decoder()
             raise
         if i is not None and address is not None and not self.is_wasm:
